@@ -1,7 +1,7 @@
 (* C01 — the server frames and orders requests exactly as the wire says (framing core). *)
 From Coq Require Import String.
 From Coq Require Import List Strings.Byte NArith ZArith Bool Arith.
-Require Import Bytes Show Tables Codec Chunk ChunkProofs TrailerKeys HeaderNameProofs Range RangeProofs DecProofs HeaderScan HeaderScanProofs ReqHead ReqHeadProofs.
+Require Import Bytes Show Tables Codec Chunk ChunkProofs TrailerKeys HeaderNameProofs Range RangeProofs DecProofs UintWrap HeaderScan HeaderScanProofs ReqHead ReqHeadProofs.
 Import ListNotations.
 
 (* Chunked framing: for EVERY list of non-empty chunks (any sizes below 16^15, any contents —
@@ -22,6 +22,16 @@ Print Assumptions C01_chunk_size_roundtrip.
 (* Content-Length numerals *)
 Theorem C01_content_length_roundtrip : forall n : Z, (0 <= n < two63)%Z -> parse_uint (show_Z n) = Some n.
 Proof. exact parse_uint_show. Qed.
+
+(* Content-Length numerals with ANY number of digits (also those whose 64-bit wrap the overflow test
+   misses, D20): an accepted numeral consists of digits only, and the length taken is the true value
+   or else it is at least 2^63/10 while the true value is at least 2^63 - so with any body-size limit
+   below 2^63/10 a declared length is either framed exactly or refused as too large. *)
+Theorem C01_content_length_any_numeral : forall (s : bs) (w : Z), parse_uint s = Some w ->
+  Forall is_digit s /\ (0 <= w < two63)%Z /\
+  (w = val_from 0 s \/ (wrap_floor <= w /\ two63 <= val_from 0 s)%Z).
+Proof. exact parse_uint_any. Qed.
+Print Assumptions C01_content_length_any_numeral.
 
 (* Only names that equal Content-Length / Transfer-Encoding ignoring ASCII case are taken for
    them: the comparison used for framing names is exactly ASCII case folding (ascii_lower is an
